@@ -112,15 +112,11 @@ where
         use crate::util::Consume;
 
         tokio::select! {
-            tag = self.flow_state.consume(1) => {
-                // link-credit is defined as
-                // "The current maximum number of messages that can be handled
-                // at the receiver endpoint of the link"
+            // A detach the peer has already sent is looked at first: with credit in hand
+            // the transfer would otherwise be written on a link the peer has detached,
+            // and its outcome would never arrive
+            biased;
 
-                // Draining should already set the link credit to 0, causing
-                // sender to wait for new link credit
-                Ok(tag)
-            },
             frame = detached => { // cancel safe
                 match frame {
                     // If remote has detached the link
@@ -155,6 +151,15 @@ where
                         }
                     }
                 }
+            },
+            tag = self.flow_state.consume(1) => {
+                // link-credit is defined as
+                // "The current maximum number of messages that can be handled
+                // at the receiver endpoint of the link"
+
+                // Draining should already set the link credit to 0, causing
+                // sender to wait for new link credit
+                Ok(tag)
             }
         }
     }
